@@ -212,8 +212,26 @@ def infer_no_memory(ctx: Ctx, repo: Repo, rule: str) -> None:
         ("two instances of one user class", IM.val("class:User", "u1"), IM.val("class:User", "u2")),
     ]
     n = 0
+    defaults = gt.defaults()
+    modes: List[Any] = [None]
+    for p_ in extra:
+        dflt = defaults[p_]
+        if isinstance(dflt, ast.Constant) and dflt.value is None:
+            modes.append(p_)
+        elif isinstance(dflt, ast.Constant) and isinstance(dflt.value, int) and not isinstance(dflt.value, bool):
+            # a numeric extra parameter (a depth, a budget): whatever value a nested call hands down, the type
+            # inferred for a value must be the one inferred for it at top level
+            for delta in (1, 7, 1000):
+                for what, v1, v2 in pairs:
+                    for limit in (0, 2):
+                        want = IM.InferScenario(repo, "get_type", all_str=True, any_str=True).result({ps[0]: v2, ps[1]: K(limit)})
+                        got = IM.InferScenario(repo, "get_type", all_str=True, any_str=True).result({ps[0]: v2, ps[1]: K(limit), p_: K(dflt.value + delta)})
+                        n += 1
+                        ctx.check(got == want, rule, gt.fq,
+                                  "the type inferred for a value is the same at every nesting position (no extra parameter changes it)",
+                                  construct=f"{what.split(',')[0]} (limit {limit}, {p_}={dflt.value + delta}): {str(got)[:100]}, at top level {str(want)[:100]}")
     for limit in (0, 2):
-        for mode in [None] + extra:
+        for mode in modes:
             for what, v1, v2 in pairs:
                 def scen() -> Any:
                     sc = IM.InferScenario(repo, "get_type", all_str=True, any_str=True)
